@@ -19,7 +19,7 @@ THEOREMS_DOC = {
     "C01_reachable_invariant": "the invariant (desired values validated, OTA words in range, node ids = keys) holds in every reachable state",
     "C01_liveness_probe": "a config request from a node that is not held back is answered with M/I",
 }
-SCOPE = ["R", "S", "jobs"]
+SCOPE = ["R"]
 
 
 def run(ctx, res):
